@@ -60,6 +60,9 @@ def run(check: Check, repo: Repo, tier: str) -> None:
     check.floor("ATTR-MEMO", 1, "object-attribute memos")
     X.collect_guard(check, repo)
     X.source_siblings(check, repo)
+    S.nonnull_invariant(check, repo.package_modules("execution"))
+    X.scope_threading(check, repo, [repo.mod(x) for x in ("execution.executor", "execution.execute", "execution.values", "execution.collect_fields",
+                                                           "utilities.coerce_input_value", "utilities.replace_variables", "utilities.validate_input_value")])
     G.dispatch_loop_break(check, funcs)
     X.handler_nulls(check, repo, repo.package_modules("execution"))
     X.zip_align(check, repo, repo.package_modules("execution"))
